@@ -1,15 +1,19 @@
-// Package gate: a generic event gate for workload-family scenarios of the scheduler flavour.
+// Package gate: generic event gates for workload-family scenarios of the scheduler flavour.
 //
 // scorch's PUBLIC event callback registry runs harness code inside the persister / merger thread.
 // Under the cooperative scheduler that code can park on a managed channel, which turns a timing
 // window that no small deviation bound reaches ("the merger is suspended between building a merged
 // segment and introducing it while two batches land") into an ordinary step of the driver. Which
-// window is opened — event kind, occurrence, and for how many further driver steps it stays open —
-// is an ENVIRONMENT CHOICE of the explorer (vrt.Choose): every member of the menu is explored.
+// windows are opened — event kind, the driver step after which the gate is armed, occurrence, and
+// for how many further driver steps it stays closed — is an ENVIRONMENT CHOICE of the explorer
+// (vrt.Choose): every member of the menu is explored. A menu member is no gate, one gate, or a pair
+// (one gate on the persister, one on the merger), so that "the persister purges and persists while
+// the merger sits between writing a merged file and introducing it" is a member too.
 package gate
 
 import (
 	"fmt"
+	"os"
 
 	"github.com/blevesearch/bleve/v2/index/scorch"
 
@@ -19,32 +23,82 @@ import (
 // Name is the callback name to put into the index configuration ("eventCallbackName").
 const Name = "verif-family-gate"
 
-// Spec is one member of the gate menu.
+// Spec is one gate.
 type Spec struct {
-	Kind  scorch.EventKind
-	Occ   int // park at this occurrence of the event after Arm (1-based); 0 = no gate
-	Steps int // driver steps the gate stays closed after the step in which it parked
+	Kind     scorch.EventKind
+	ArmAfter int // the gate is armed after this many driver steps (0 = before the first)
+	Occ      int // park at this occurrence of the event after arming (1-based)
+	Steps    int // driver steps the gate stays closed after the step in which it parked
+	Label    string
+}
+
+// Choice is one member of the menu: zero, one or two gates.
+type Choice struct {
+	Gates []Spec
 	Label string
 }
 
-// Menu: no gate, then {persister finished a round, persister about to purge, merger about to plan,
-// merger about to introduce a merged segment} x occurrence {1,2} x open after {1,2} further steps.
-func Menu() []Spec {
-	m := []Spec{{Label: "none"}}
-	kinds := []struct {
-		k scorch.EventKind
-		n string
-	}{
-		{scorch.EventKindMergeTaskIntroductionStart, "merger-before-introducing-merge"},
-		{scorch.EventKindPersisterProgress, "persister-after-round"},
-		{scorch.EventKindPurgerCheck, "persister-before-purge"},
-		{scorch.EventKindPreMergeCheck, "merger-before-planning"},
-	}
+var persisterKinds = []struct {
+	k scorch.EventKind
+	n string
+}{
+	{scorch.EventKindPersisterProgress, "persister-after-round"},
+	{scorch.EventKindPurgerCheck, "persister-before-purge"},
+}
+var mergerKinds = []struct {
+	k scorch.EventKind
+	n string
+}{
+	{scorch.EventKindMergeTaskIntroductionStart, "merger-before-introducing-merge"},
+	{scorch.EventKindPreMergeCheck, "merger-before-planning"},
+}
+
+func singles(kinds []struct {
+	k scorch.EventKind
+	n string
+}, maxSteps int) []Spec {
+	var m []Spec
 	for _, k := range kinds {
-		for occ := 1; occ <= 2; occ++ {
-			for steps := 1; steps <= 2; steps++ {
-				m = append(m, Spec{Kind: k.k, Occ: occ, Steps: steps, Label: fmt.Sprintf("%s#%d+%d", k.n, occ, steps)})
+		for arm := 0; arm <= 2; arm++ {
+			for occ := 1; occ <= 2; occ++ {
+				for steps := 1; steps <= maxSteps; steps++ {
+					m = append(m, Spec{Kind: k.k, ArmAfter: arm, Occ: occ, Steps: steps, Label: fmt.Sprintf("%s@%d#%d+%d", k.n, arm, occ, steps)})
+				}
 			}
+		}
+	}
+	return m
+}
+
+func thorough() bool { return os.Getenv("VERIF_TIER") == "thorough" }
+
+// Menu: no gate; every single gate {persister finished a round, persister about to purge, merger
+// about to plan, merger about to introduce a merged segment} x armed after driver step {0,1,2} x
+// occurrence {1,2} x closed for 1 (thorough: 1 or 2) further steps.
+func Menu() []Choice {
+	maxSteps := 1
+	if thorough() {
+		maxSteps = 2
+	}
+	m := []Choice{{Label: "none"}}
+	for _, s := range append(singles(mergerKinds, maxSteps), singles(persisterKinds, maxSteps)...) {
+		m = append(m, Choice{Gates: []Spec{s}, Label: s.Label})
+	}
+	return m
+}
+
+// MenuPairs: Menu plus pairs of one persister gate and one merger gate. thorough: every pair of
+// single gates (closed for 1 or 2 steps each); quick: pairs armed after the same driver step, with
+// closing times (1,2) and (2,1) so that either one opens while the other is still closed.
+func MenuPairs() []Choice {
+	m := Menu()
+	ps, ms := singles(persisterKinds, 2), singles(mergerKinds, 2)
+	for _, p := range ps {
+		for _, q := range ms {
+			if !thorough() && (p.ArmAfter != q.ArmAfter || p.Steps == q.Steps) {
+				continue
+			}
+			m = append(m, Choice{Gates: []Spec{p, q}, Label: p.Label + " & " + q.Label})
 		}
 	}
 	return m
@@ -53,72 +107,117 @@ func Menu() []Spec {
 // G is an armed gate.
 type G struct {
 	Spec
-	seen     int
-	Parked   bool // a background thread is parked at the gate right now
-	Was      bool // it parked at some moment
-	left     int
-	opened   bool
-	release  chan int
+	seen    int
+	Parked  bool // a background thread is parked at the gate right now
+	Was     bool // it parked at some moment
+	left    int
+	opened  bool
+	release chan int
+}
+
+// Set is the armed member of the menu.
+type Set struct {
+	gs       []*G
+	stepsRun int
 	disarmed bool
 }
 
-var cur *G
+var cur *Set
 
 func init() {
 	scorch.RegistryEventCallbacks[Name] = func(e scorch.Event) bool {
-		g := cur
-		if g == nil || g.disarmed || g.Occ == 0 || g.Was || e.Kind != g.Kind {
+		s := cur
+		if s == nil || s.disarmed {
 			return true
 		}
-		g.seen++
-		if g.seen == g.Occ {
-			g.Was, g.Parked = true, true
-			g.left = g.Steps
-			vrt.Recv(g.release)
-			g.Parked = false
+		for _, g := range s.gs {
+			if g.Was || e.Kind != g.Kind || s.stepsRun < g.ArmAfter {
+				continue
+			}
+			g.seen++
+			if g.seen == g.Occ {
+				g.Was, g.Parked = true, true
+				g.left = g.Steps
+				vrt.Recv(g.release)
+				g.Parked = false
+			}
 		}
 		return true
 	}
 }
 
-// Arm installs the gate (occurrences are counted from now on).
-func Arm(s Spec) *G {
-	g := &G{Spec: s, release: make(chan int, 1)}
-	cur = g
-	return g
+// Arm installs the chosen gates.
+func Arm(c Choice) *Set {
+	s := &Set{}
+	for _, sp := range c.Gates {
+		s.gs = append(s.gs, &G{Spec: sp, release: make(chan int, 1)})
+	}
+	cur = s
+	return s
 }
 
-// Step is called by the driver after each of its steps (when everything has settled): the gate
-// opens when it has been closed for the chosen number of steps. It reports whether it opened now.
-func (g *G) Step() bool {
-	if g == nil || !g.Parked || g.opened {
+// Step is called by the driver after each of its steps (when everything has settled): a gate opens
+// when it has been closed for its number of steps. It reports whether a gate opened now (the driver
+// then lets things settle again).
+func (s *Set) Step() bool {
+	if s == nil {
 		return false
 	}
-	if g.left > 0 {
-		g.left--
-		return false
+	s.stepsRun++
+	opened := false
+	for _, g := range s.gs {
+		if !g.Parked || g.opened {
+			continue
+		}
+		if g.left > 0 {
+			g.left--
+			continue
+		}
+		g.open()
+		opened = true
 	}
-	g.Open()
-	return true
+	return opened
 }
 
-// Open opens the gate for good (harmless when nothing is or ever gets parked).
-func (g *G) Open() {
-	if g == nil || g.opened {
+func (g *G) open() {
+	if g.opened {
 		return
 	}
 	g.opened = true
 	vrt.Send(g.release, 1)
 }
 
-// Disarm opens and removes the gate.
-func (g *G) Disarm() {
-	if g == nil {
+// Open opens every gate for good (harmless when nothing is or ever gets parked).
+func (s *Set) Open() {
+	if s == nil {
 		return
 	}
-	g.Open()
-	g.disarmed = true
-	if cur == g {
+	for _, g := range s.gs {
+		g.open()
+	}
+}
+
+// Was reports how many gates parked a background thread at some moment.
+func (s *Set) Was() int {
+	n := 0
+	if s != nil {
+		for _, g := range s.gs {
+			if g.Was {
+				n++
+			}
+		}
+	}
+	return n
+}
+
+// Disarm opens and removes the gates.
+func (s *Set) Disarm() {
+	if s == nil {
+		return
+	}
+	s.Open()
+	s.disarmed = true
+	if cur == s {
 		cur = nil
 	}
 }
